@@ -142,6 +142,32 @@ def crowd_traces():
     return out
 
 
+def unwatched_gap_traces():
+    """only watch-all listeners: an offer arrives while someone listens, again while nobody does (the record is dropped), and
+    again after a listener is back -- the deadline of the first offer must not touch the last one"""
+    from ..monpass import add_adv
+    out = []
+    sid = [0]
+
+    def rx(t, j, ttl, src="a1", svc="s1"):
+        sid[0] += 1
+        return {"t": t, "j": j, "op": "rx", "src": src, "mc": True, "sid": sid[0], "rb": True, "uc": True,
+                "es": [{"ty": "offer", "svc": svc, "ttl": ttl, "opts": []}]}
+    for a in (2, 3):
+        for mid in (None, 1, 3, FOREVER):
+            for b in (5, FOREVER, 2):
+                for back in ("L1", "L2"):
+                    sid[0] = 0
+                    sched = [{"t": 0, "j": 0, "op": "watch", "lst": "L1", "flt": "ALL"}, rx(1, 0, a),
+                             {"t": 2, "j": 0, "op": "unwatch", "lst": "L1", "flt": "ALL"}]
+                    if mid is not None:
+                        sched.append(rx(2, 1, mid))
+                    sched += [{"t": 3, "j": 0, "op": "watch", "lst": back, "flt": "ALL"}, rx(3, 1, b), rx(3, 1, b, "a2", "s2")]
+                    ev, missed = run_schedule(sched, t_extra=4)
+                    out.append({"cfg": mon_cfg(), "ev": add_adv(ev), "sched": sched, "missed": missed})
+    return out
+
+
 def random_traces(seed, count, length):
     from ..monpass import add_adv
     traces = []
@@ -219,7 +245,7 @@ def check(ctx):
             runs.append((name, r.distinct, r.generated))
     # Mode 3: monitor verdict on executions of the real code
     n, length = ctx.pick((300, 14), (4000, 24))
-    traces = random_traces(ctx.seed, n, length) + crowd_traces()
+    traces = random_traces(ctx.seed, n, length) + crowd_traces() + unwatched_gap_traces()
     if any(t["missed"] for t in traces):
         ctx.note("schedule positions missed in %d traces" % sum(bool(t["missed"]) for t in traces))
     bad, mstates = judge(ctx, traces, "random histories")
